@@ -431,6 +431,16 @@ def catalogue(big=False):
                                 call("CONS", binds={"ts": ref("P", "t"), "s": ref("SLOW", "y")})],
                                {"r": ref("CONS", "r"), "os": ref("P", "o")})], "TOP", {}))
 
+    # 14g. a splitting stage mapped over a literal array inside a pipeline mapped over a run-time
+    #      array: the forks of the stage are appended out of numeric order (fork0, fork2, fork1, ...)
+    P.append(program("map_dyn_static_split", [], [S_const("G", "int[] ys", {"ys": [1, 2, 3]}), S_split("S")],
+                     [pipeline("SUB", "int n", "int k",
+                               [call("S", binds={"xs": split(lit([[1, 2], [3], [4, 5, 6]]))}, mode="array")],
+                               {"k": self_("n")}),
+                      pipeline("TOP", "", "int[] o",
+                               [call("G"), call("SUB", binds={"n": split(ref("G", "ys"))}, mode="array")],
+                               {"o": ref("SUB", "k")})], "TOP", {}))
+
     # 15. typed maps with keys that stress fork naming and journal routing
     for nm, keys in (("keys_suffix", ["a_b", "b"]), ("keys_encoded", ["a b", "a%20b"]),
                      ("keys_dots", ["k.1", "k/1", "%2E"]), ("keys_fork", ["fork1", "chnk0", "u0123456789"])):
